@@ -65,3 +65,14 @@ Ltac inv_step :=
   | H : match ?x with _ => _ end = Ok _ |- _ => destruct x eqn:?
   end.
 Ltac inv_all := repeat inv_step.
+
+Lemma foldM_inv {A B} (P : B -> Prop) (f : B -> A -> res B) l : forall b r,
+  (forall acc x acc', In x l -> f acc x = Ok acc' -> P acc -> P acc') ->
+  P b -> foldM f l b = Ok r -> P r.
+Proof.
+  induction l as [|x xs IH]; intros b r Hstep Hb H; cbn [foldM] in H.
+  - inversion H; subst. exact Hb.
+  - apply bind_ok in H. destruct H as [b' [Hb' H]].
+    eapply IH; [|eapply Hstep; [left; reflexivity | exact Hb' | exact Hb] | exact H].
+    intros acc y acc' Hy. apply Hstep. right. exact Hy.
+Qed.
